@@ -18,8 +18,8 @@ import tflsum
 import vlib
 
 ELEM = {"int8": 1, "uint8": 1, "int16": 2, "int32": 4}
-FAMS = ["single:conv", "single:dw", "single:maxpool", "single:avgpool", "single:fc", "conv_chain", "single:transpose", "conv_chain",
-        "single:conv", "single:transpose", "single:reshape", "single:pad", "single:slice", "single:concat"]
+FAMS = ["single:conv@8", "single:dw@8", "single:maxpool@8", "single:avgpool@8", "single:fc@8", "conv_chain", "single:transpose@8",
+        "single:transpose@8", "single:transpose@8", "single:reshape@8", "single:pad@8", "single:slice@8", "single:concat@8", "conv_chain"]
 
 
 def macs_of(ref):
@@ -108,7 +108,7 @@ def run(tier):
     res = vlib.Result("C01", tier, "other")
     b = vlib.build_property("C01")
     okx, xlog = vlib.build_extraction("npuExec")
-    n = 70 if tier == "quick" else 1200
+    n = 84 if tier == "quick" else 1400
     max_macs = 250000 if tier == "quick" else 1500000
     rng = random.Random("c01/%d" % vlib.seed())
     jobs = compiles.corpus_jobs(capture=False) + compiles.plan(FAMS, n, vlib.seed(), tag="c01", capture=False)
